@@ -205,7 +205,12 @@ func TestVF_C06(t *testing.T) {
 		for i, a := range run.inAttrs {
 			got := cred.Attributes[i+1]
 			if isBlind[i] {
-				us, is := run.builder.mUser[i+1], m2.MIssuer[i+1]
+				mu := credBuilderMUser(run.builder)
+				if mu == nil {
+					rec.Class("whitebox-unavailable/CredentialBuilder.mUser", 1)
+					continue
+				}
+				us, is := mu[i+1], m2.MIssuer[i+1]
 				if us == nil || is == nil || got == nil || got.Cmp(new(big.Int).Add(us, is)) != 0 {
 					rec.Fail(rt, "blind-attribute-is-not-sum-of-shares", det(fmt.Sprintf("index %d", i+1)))
 					return
@@ -254,14 +259,16 @@ func TestVF_C06(t *testing.T) {
 		}
 		vmax := pow2(pk.Params.LvPrimeCommit + 1)
 		m1devs := map[string][]byte{
-			"proofU.U+1":             edit1(func(m *IssueCommitmentMessage, p *ProofU) { p.U.Add(p.U, bi(1)) }),
-			"proofU.U*S":             edit1(func(m *IssueCommitmentMessage, p *ProofU) { p.U.Mul(p.U, pk.S).Mod(p.U, pk.N) }),
-			"proofU.c+1":             edit1(func(m *IssueCommitmentMessage, p *ProofU) { p.C.Add(p.C, bi(1)) }),
-			"proofU.v_prime+1":       edit1(func(m *IssueCommitmentMessage, p *ProofU) { p.VPrimeResponse.Add(p.VPrimeResponse, bi(1)) }),
-			"proofU.v_prime+ord":     edit1(func(m *IssueCommitmentMessage, p *ProofU) { p.VPrimeResponse.Add(p.VPrimeResponse, c.kp.Sk.Order) }),
-			"proofU.v_prime>range":   edit1(func(m *IssueCommitmentMessage, p *ProofU) { p.VPrimeResponse.Add(p.VPrimeResponse, new(big.Int).Mul(c.kp.Sk.Order, vmax)) }),
-			"proofU.s_response+1":    edit1(func(m *IssueCommitmentMessage, p *ProofU) { p.SResponse.Add(p.SResponse, bi(1)) }),
-			"proofU.s_response-1":    edit1(func(m *IssueCommitmentMessage, p *ProofU) { p.SResponse.Sub(p.SResponse, bi(1)) }),
+			"proofU.U+1":         edit1(func(m *IssueCommitmentMessage, p *ProofU) { p.U.Add(p.U, bi(1)) }),
+			"proofU.U*S":         edit1(func(m *IssueCommitmentMessage, p *ProofU) { p.U.Mul(p.U, pk.S).Mod(p.U, pk.N) }),
+			"proofU.c+1":         edit1(func(m *IssueCommitmentMessage, p *ProofU) { p.C.Add(p.C, bi(1)) }),
+			"proofU.v_prime+1":   edit1(func(m *IssueCommitmentMessage, p *ProofU) { p.VPrimeResponse.Add(p.VPrimeResponse, bi(1)) }),
+			"proofU.v_prime+ord": edit1(func(m *IssueCommitmentMessage, p *ProofU) { p.VPrimeResponse.Add(p.VPrimeResponse, c.kp.Sk.Order) }),
+			"proofU.v_prime>range": edit1(func(m *IssueCommitmentMessage, p *ProofU) {
+				p.VPrimeResponse.Add(p.VPrimeResponse, new(big.Int).Mul(c.kp.Sk.Order, vmax))
+			}),
+			"proofU.s_response+1": edit1(func(m *IssueCommitmentMessage, p *ProofU) { p.SResponse.Add(p.SResponse, bi(1)) }),
+			"proofU.s_response-1": edit1(func(m *IssueCommitmentMessage, p *ProofU) { p.SResponse.Sub(p.SResponse, bi(1)) }),
 		}
 		// v_prime + ord keeps the proven statement: it stays valid as long as it is in range
 		delete(m1devs, "proofU.v_prime+ord")
